@@ -63,6 +63,11 @@ def optNatJ : Option Nat → Json
 def repToString : Rep → String
   | .xml => "xml" | .bin => "bin" | .txt => "txt"
 
+def sectToJson : Sect → Json
+  | .scalars n => Json.arr #[.str "SCALARS", .str n]
+  | .vectors n => Json.arr #[.str "VECTORS", .str n]
+  | .field ns => Json.arr #[.str "FIELD", listJ Json.str ns]
+
 end C16J
 open C16J
 
@@ -100,8 +105,14 @@ def c16 (op : String) (j : Json) : Option (R Json) :=
       let f ← fldOfJson (← fld j "field")
       let rep ← strOfJson (← fld j "rep")
       let save ← boolOfJson (← fld j "save")
+      -- `arrays`: the arrays in the order a VTK reader returns them for the written file; `sections`: the
+      -- CELL_DATA sections of a legacy file built from the grid `to_vtk` returns
       pure (resJ (fun (v : VFile) => Json.mkObj [("rep", .str (repToString v.rep)),
-        ("sidecar", sidecarToJson v.sidecar), ("ncell_arrays", .num (JsonNumber.fromNat v.grid.cell.length))])
+        ("sidecar", sidecarToJson v.sidecar), ("ncell_arrays", .num (JsonNumber.fromNat v.grid.cell.length)),
+        ("arrays", listJ (fun (a : VArr) => Json.arr #[.str a.name, .num (JsonNumber.fromNat a.ncomp), .bool a.int]) v.grid.cell),
+        ("sections", match toVtk f with
+          | .ok g => listJ sectToJson (legacySections (activeAttr f) g.cell)
+          | .error _ => .null)])
         (toFile f rep save id))
   | "roundtrip" => some do
       let f ← fldOfJson (← fld j "field")
